@@ -33,7 +33,7 @@ def check(ctx, tier):
     W.report(ctx, tk, "C16.f", fs)
     registry(ctx, tk)
     from .. import hazards as _hz, scopes as _sc
-    _hz.generic(ctx, tk, "C16.z", _sc.scope(tk, "C16", depth=2))
+    _hz.generic(ctx, tk, "C16.z", _sc.scope(tk, "C16", depth=1))
     return {}
 
 
